@@ -7,7 +7,11 @@ ID = "C18"
 LOG_LEVEL_INVARIANT = True      # (harness/vp.py: a sample of the cases again with logging at DEBUG; same observables)
 RUN_MODULE = "RunC18"
 RULE = ("one case = a history of 2-5 runs on one real recorder: operations of two or three classes (instance and class-level, "
-        "the same class several times with different extractors: dict / raises / junk int / junk pairs / none) terminating by "
+        "the same class several times with different extractors: dict / raises / junk int / junk pairs / none; the dict handed "
+        "back as a dict or in any other form dict() accepts: OrderedDict, defaultdict, MappingProxyType, ChainMap, UserDict, an "
+        "object with keys()/__getitem__, list / tuple / generator of pairs, an items view - randomly and as a deterministic "
+        "grid shape x termination; a grid in which recording is switched off, and on again, while the operation is in flight) "
+        "terminating by "
         "return, ordinary exception or interrupt at a random step incl. inside intercepted bodies and after outputs were "
         "captured, with discards and replays in between; operation classes that derive from another class of the service "
         "(base plain or with registered recording parameters, derived class registered or not, the decorated operation defined "
@@ -43,6 +47,12 @@ def set_final_ret(c, lit):
 INTERRUPT_KINDS = ["custom", "keyboard", "sysexit", "genexit"]   # which BaseException an "interrupt" of the program is
 W = dict(rd.DEFAULT_W, fault=0.1, discard=0.25, force=0.3, interrupt=0.3, raise_=0.3, enable=0.05, unser=0.0,
          prep_discards=0.02, handler=0.15, playdata=0.1)
+
+
+# what a metadata extractor may hand back: the recorder does metadata.update(dict(extractor())), so every form dict() accepts
+# states the same key/value pairs (driver: recorder_driver.shaped)
+EXTRACTOR_SHAPES = ["dict", "ordereddict", "defaultdict", "mappingproxy", "chainmap", "userdict", "keys-getitem", "pairs-list",
+                    "pairs-tuple", "pairs-lists", "items-view", "pairs-generator"]
 
 
 def rand_extractor(rng):
@@ -93,8 +103,50 @@ def hierarchy_grid():
                                    lookup_variants=True, stream="hierarchy-grid")
 
 
+def extractor_shape_grid():
+    """deterministic core: every form of extractor result that dict() accepts x termination x instance / class level; the
+    first run of each history uses a plain dict with the same pairs, a third run an extractor that fails (none of it)"""
+    term = {"return": {"k": "ret", "e": {"lit": pv.i(1)}}, "raise": {"k": "raise", "ty": "ValueError"},
+            "interrupt": {"k": "interrupt"}}
+    pairs = [["tenant", pv.s("t1")], ["size", pv.i(3)], ["flag é", pv.b(True)]]
+    for k, shape in enumerate(EXTRACTOR_SHAPES):
+        for how in ("return", "raise", "interrupt"):
+            classlevel = (k + len(how)) % 2 == 0
+            mk = lambda ex, cls: dict(kind="record", enabled=True, prm=dict(PLAIN_PRM), save_fails=False,    # noqa: E731
+                                      op=dict(cls=cls, classlevel=classlevel, extractor=ex, body=rd.clean(term[how])))
+            runs = [mk({"kind": "dict", "d": rd.clean(pairs)}, "OpA"),
+                    mk({"kind": "dict", "shape": shape, "d": rd.clean(pairs)}, "OpB"),
+                    mk({"kind": "dict", "shape": shape, "d": []}, "OpB"),
+                    mk({"kind": "raises"}, "Op_C")]
+            yield dict(interrupt_kind="keyboard", draws=[], runs=runs, cassette="memory", lookup=True, stream="extractor-shapes")
+
+
+def switched_off_grid():
+    """deterministic core: recording is switched off (and on again) while the operation is in flight - the run is still
+    finalised and saved, and its metadata still tells how it ended"""
+    term = {"return": {"k": "ret", "e": {"lit": pv.i(1)}}, "raise": {"k": "raise", "ty": "ValueError"},
+            "interrupt": {"k": "interrupt"}}
+    out_site = dict(k="out", cfg=dict(alias="send", static=True, handler="none", fail=True, default=pv.none()),
+                    body={"k": "ret", "e": {"lit": pv.none()}}, args=[{"lit": pv.s("x")}], kwargs=[])
+    for how in ("return", "raise", "interrupt"):
+        for back_on in (False, True):
+            for classlevel in (False, True):
+                tail = rd.clean(term[how])
+                if back_on:
+                    tail = {"k": "enable", "b": True, "next": tail}
+                first = dict(out_site, next={"k": "enable", "b": False, "next": dict(rd.clean(out_site), next=tail)})
+                early = {"k": "enable", "b": False, "next": dict(rd.clean(out_site), next=rd.clean(tail))}
+                mk = lambda body, cls: dict(kind="record", enabled=True, prm=dict(PLAIN_PRM), save_fails=False,    # noqa: E731
+                                            op=dict(cls=cls, classlevel=classlevel, body=body,
+                                                    extractor={"kind": "dict", "d": [["tenant", pv.s("t1")]]}))
+                yield dict(interrupt_kind="keyboard", draws=[], runs=[mk(first, "OpA"), mk(early, "OpB"), mk(rd.clean(first), "OpA")],
+                           cassette="memory", lookup=True, lookup_variants=True, stream="switched-off-in-flight")
+
+
 def generate(rng, tier):
-    cases = list(hierarchy_grid())
+    cases = list(hierarchy_grid()) + list(extractor_shape_grid()) + list(switched_off_grid())
+    shape_rng = __import__("random").Random()
+    shape_rng.setstate(rng.getstate())     # (a copy of the stream: the histories below stay what they were)
     n = 220 if tier == "quick" else 3000
     for i in range(n):
         runs = []
@@ -110,6 +162,8 @@ def generate(rng, tier):
                 continue
             op = rd.rand_opdef(rng, W, budget=rng.choice([3, 6, 10]), cls=rng.choice(classes))
             op["extractor"] = rand_extractor(rng)
+            if op["extractor"]["kind"] == "dict" and shape_rng.random() < 0.5:
+                op["extractor"]["shape"] = shape_rng.choice(EXTRACTOR_SHAPES[1:])
             op["classlevel"] = (op["cls"] == "OpB")
             if rng.random() < 0.12:
                 # a run that RETURNS a value shaped like the stored form of an exception did not end in an exception
@@ -158,8 +212,9 @@ def direct(case, obs):
         ex = op["extractor"]
         want = {k: pv.canon_json(v) for k, v in ex["d"]} if ex["kind"] == "dict" else {}
         if {k: pv.canon_json(v) for k, v in user.items()} != want:
-            fails.append(("wrong-user-metadata", "run %d: extractor %s, user metadata saved: %s" %
-                          (i, ex["kind"], sorted(user))))
+            fails.append(("wrong-user-metadata", "run %d: extractor %s%s, user metadata saved: %s" %
+                          (i, ex["kind"], " (returns its pairs %s as %s, a form dict() accepts)" % (sorted(want), ex["shape"])
+                           if ex.get("shape") else "", sorted(user))))
         ck = saves[0].get("clock", {})
         if not ck.get("duration_ok") or not ck.get("recorded_at_ok") or not ck.get("recorded_at_utc_ok"):
             fails.append(("bad-clock-metadata", "run %d: %s" % (i, ck)))
@@ -233,6 +288,9 @@ def features(case):      # noqa: F811
         fs.add("lookup:properties-adjusted-after-construction")
     if case.get("stream"):
         fs.add("stream:" + case["stream"])
+    for r in case["runs"]:
+        if r["kind"] == "record" and r["op"]["extractor"].get("shape"):
+            fs.add("extractor-returns:" + r["op"]["extractor"]["shape"])
     return fs
 
 
@@ -249,7 +307,9 @@ MANIFEST = dict(
          "the harness-side twin's termination mode, user keys vs the extractor, clock sanity, and the default "
          "find_matching_recording_ids returns exactly the complete saved recordings - also when the lookup properties reached "
          "their state after construction (skip_incomplete / metadata assigned later, one object reused): the state at lookup time "
-         "decides (skip_incomplete off: all saved recordings; an exception-flag filter: the complete runs that returned). The "
+         "decides (skip_incomplete off: all saved recordings; an exception-flag filter: the complete runs that returned). An "
+         "extractor that succeeds states its pairs whatever form dict() accepts it hands back (mapping views, chained / user "
+         "mappings, sequences and generators of pairs: deterministic grid). The "
          "class stated is the class the operation ran on, also for classes derived from a class with registered parameters.",
     note="Partial: 'duration consistent with wall time' is about the OS clock (sanity-checked by the harness, not modelled). "
          "Hypothesis: aliases / user keys not containing the reserved operation alias. Trusted: Coq kernel + vm_compute, "
